@@ -31,16 +31,24 @@ _base = None
 
 
 _direct = None
+_sole = {}
 
 
 def baseline():
-    global _base, _direct
+    global _base, _direct, _sole
     if _base is None:
         with open(BASELINE) as fh:
             j = json.load(fh)
         _base = set(j["functions"])
         _direct = set(j.get("direct_closures", []))
+        _sole = j.get("sole_caller", {})
     return _base
+
+
+def sole_caller(path):
+    """the one function that called `path` on the confirmed tree (private helpers), or None"""
+    baseline()
+    return _sole.get(path)
 
 
 def baseline_direct_closures():
@@ -452,6 +460,16 @@ def _expand_fn(f, helpers, depth, stack, closures=None):
                     _walk_shift(v, dl)
                 _retarget(t, db)
             if caps is not None:
+                # `x = copy (*_1).k` of a variable captured by reference is `x = &variable`
+                for s0 in nb["stmts"]:
+                    rv0 = s0.get("rv") or {}
+                    pl0 = _op_place(rv0.get("op")) if rv0.get("k") == "use" else None
+                    if pl0 is None or pl0["l"] != dl + 1:
+                        continue
+                    p0 = pl0["p"][1:] if pl0["p"][:1] == ["*"] else pl0["p"]
+                    if len(p0) == 1 and isinstance(p0[0], dict) and p0[0].get("closure") and \
+                            ("ref", p0[0].get("f")) in caps:
+                        s0["rv"] = {"k": "ref", "bk": "shared", "place": copy.deepcopy(caps[("ref", p0[0]["f"])])}
                 _subst_captures(nb, dl + 1, caps)
             chains[len(body["blocks"])] = chain | {h["path"]}
             body["blocks"].append(nb)
